@@ -85,7 +85,12 @@ def compare_with_model(ctx, cases, label):
         for k, c in enumerate(cs):
             md = "Release" if c["release"] else "Debug"
             lines.append("Definition i%d := Eval vm_compute in img_map %s." % (k, vlib.gz(list(bytes.fromhex(c["img"])))))
-            if c["kind"] == "range":
+            if c["kind"] == "raw":
+                lines.append("Definition c%d : list Z := obs_raw %s %d %d%%nat %s %s." % (
+                    k, gal_prov(c, "i%d" % k), c["word"], c["n"], "true" if c["exact"] else "false", "true" if c["write"] else "false"))
+                lines.append("Definition e%d : list Z := %s%%Z." % (k, vlib.gz(exp_run(dict(c, q=0, arg=0), c["patches"]))))
+                evals.append("(if list_eq_dec Z.eq_dec c%d e%d then [] else [(%d, 0)%%Z])" % (k, k, k))
+            elif c["kind"] == "range":
                 lines.append("Definition c%d : list Z := obs_range %s %d %d [%s]." % (
                     k, gal_prov(c, "i%d" % k), c["start"], c["len"], "; ".join(gal_rop(o) for o in c["ops"])))
                 lines.append("Definition e%d : list Z := %s%%Z." % (k, vlib.gz(exp_range(c))))
@@ -106,9 +111,11 @@ def compare_with_model(ctx, cases, label):
             continue
         v = vlib.parse_evals(out)
         if not v or not v[0].endswith(", [])"):
-            pairs = re.findall(r"\((\d+), (\d+)\)", v[0][3:] if v else "")
-            dis += len(pairs)
-            if pairs:
+            pairs = re.findall(r"\((\d+), (\d+)\)", (v[0][3:] if v else "").replace("%Z", ""))
+            dis += max(len(pairs), 1)
+            if not pairs:
+                ctx.violation("model evaluation gave no verdict: " + out[-300:], {"broken": "correspondence", "log": out[-2000:]}, no_input=True)
+            else:
                 k, j = int(pairs[0][0]), int(pairs[0][1])
                 c = cs[k]
                 first = dict(c)
